@@ -1,0 +1,19 @@
+//go:build verif
+
+package parser
+
+import "github.com/robertkrimen/otto/file"
+
+// Verification hooks (build tag verif) for property C19: the parser's own
+// offset -> (line, column) conversion. They add code only and change no behaviour.
+
+// VerifPosition returns (*parser).position for the byte offset `offset` of src
+// (a parser with base 1, as ParseFile creates it). Precondition: 0 <= offset <= len(src).
+func VerifPosition(src string, offset int) (line, column int) {
+	p := newParser("", src, 1, nil)
+	pos := p.position(file.Idx(offset + 1))
+	return pos.Line, pos.Column
+}
+
+// VerifLineCount exposes lineCount.
+func VerifLineCount(str string) (line, last int) { return lineCount(str) }
